@@ -142,7 +142,11 @@ func (g *Gen) fill(v reflect.Value, path string, depth int) {
 				}
 			}
 			v.Set(s)
-			g.note(path, fmt.Sprintf("len %d %v", n, s.Interface()))
+			if n > 48 {
+				g.note(path, fmt.Sprintf("len %d %v ...", n, s.Slice(0, 48).Interface()))
+			} else {
+				g.note(path, fmt.Sprintf("len %d %v", n, s.Interface()))
+			}
 		default:
 			n := g.shapeLen(path)
 			s := reflect.MakeSlice(v.Type(), n, n)
